@@ -283,6 +283,10 @@ func gsR1(c *Ctx, g *gossipAnchors, rule string) {
 					c.ok(rule, key, w.instr.Pos(), "constructor inserts the local node")
 					continue
 				}
+				if w.inHelper {
+					c.ok(rule, key, w.instr.Pos(), "insertion helper: judged at each call site")
+					continue
+				}
 				facts := fs.At(w.instr.Block())
 				absent := anyFact(facts, func(f Fact) bool {
 					ex, ok := f.V.(*ssa.Extract)
@@ -733,6 +737,14 @@ func (g *gossipAnchors) idMatches(arg, root ssa.Value) bool {
 		if k, _, ok := g.nodesLookup(v); ok {
 			return sameValue(k, arg)
 		}
+		// the node returned by an insertion helper called with this id (state = s.addNode(id, addr))
+		if cl, ok := v.(*ssa.Call); ok {
+			if sc := cl.Call.StaticCallee(); sc != nil {
+				if idx, ok := g.insertHelperKey(sc); ok && idx < len(cl.Call.Args) {
+					return sameValue(cl.Call.Args[idx], arg)
+				}
+			}
+		}
 		return false
 	}
 	return rec(root)
@@ -750,6 +762,9 @@ func pairingRule(c *Ctx, g *gossipAnchors, rule string, only map[string]bool) {
 		ws := all[fn]
 		isMut := map[ssa.Instruction]gWrite{}
 		for _, w := range ws {
+			if w.lifted {
+				continue // judged inside the helper, where the notification is
+			}
 			switch w.kind {
 			case "nodes-insert", "entries-update", "entries-delete", "nodes-delete", "field:Left", "field:Unreachable":
 				isMut[w.instr] = w
@@ -930,6 +945,7 @@ func init() {
 			c.floor("C14.R1", 14)
 			c13NoAliasDecode(c, "C14.R2")
 			pairingRule(c, g, "C14.R1", nil)
+			seenW := map[string]bool{}
 			// watcher invoked only from clusterState methods, never via go/defer
 			n := 0
 			for _, f := range c.P.ModFuncs {
@@ -947,13 +963,18 @@ func init() {
 						}
 					}
 					n++
+					seenW[cc.Method.Name()] = true
 					_, isCall := i.(*ssa.Call)
 					inState := f.Parent() == nil && f.Signature.Recv() != nil && strings.Contains(f.Signature.Recv().Type().String(), "clusterState")
 					c.check(isCall && inState, "C14.R3", fnName(f)+"/"+cc.Method.Name()+"-synchronous", i.Pos(),
 						"called directly in the mutating clusterState method", "a watcher notification is deferred, queued or issued outside the mutating method: its order relative to other notifications is no longer the order of the state changes")
 				})
 			}
-			c.floor("C14.R3", 9)
+			// every notification kind is issued somewhere (sites may be shared by a helper)
+			for _, m := range []string{"OnJoin", "OnLeave", "OnReachable", "OnUnreachable", "OnUpsertKey", "OnDeleteKey", "OnExpired"} {
+				c.check(seenW[m], "C14.R3", "watcher/"+m+"-is-issued", token.NoPos, "the notification is issued by some clusterState method", "the watcher method "+m+" is never called")
+			}
+			c.floor("C14.R3", 14)
 		},
 		mutants: []mutant{
 			{Name: "compaction arm without OnDeleteKey", File: "pkg/gossip/state.go", Old: "\t\t\t\t\t\tif !e.Deleted {\n\t\t\t\t\t\t\t// If we didn't already know the entry was deleted,\n\t\t\t\t\t\t\t// notify the watcher.\n\t\t\t\t\t\t\ts.watcher.OnDeleteKey(entry.ID, e.Key)\n\t\t\t\t\t\t}\n", New: "", Rule: "C14.R1"},
@@ -1468,7 +1489,7 @@ func c02InsertOnMiss(c *Ctx, g *gossipAnchors, rule string) {
 		}
 		fs := computeFacts(fn)
 		for _, w := range all[fn] {
-			if w.kind != "nodes-insert" {
+			if w.kind != "nodes-insert" || w.inHelper {
 				continue
 			}
 			n++
@@ -1551,6 +1572,48 @@ func c02ObserverCompaction(c *Ctx, g *gossipAnchors, rule string) {
 						}
 						eb, ok := loadedField(parse.Call.Args[0], g.eValue)
 						if !ok {
+							// the value handed to a helper as a plain string: judge at every call site
+							if pv, isP := strip(parse.Call.Args[0]).(*ssa.Parameter); isP && depth < 3 && f.Object() != nil && !f.Object().Exported() {
+								idx := -1
+								for k, pp := range f.Params {
+									if pp == pv {
+										idx = k
+									}
+								}
+								sites := 0
+								for _, e := range p.callersOf(f) {
+									cf := e.Caller.Func
+									if cf == nil || isTestFile(p.Fset, cf.Pos()) || e.Site == nil || !inModule(cf) {
+										continue
+									}
+									args := e.Site.Common().Args
+									if idx < 0 || idx >= len(args) {
+										return "a call site does not bind the compaction value"
+									}
+									sites++
+									eb2, ok2 := loadedField(args[idx], g.eValue)
+									if !ok2 {
+										return "the compaction version is not parsed from the received entry's value"
+									}
+									isCompact2 := func(v ssa.Value) bool { s, ok := constString(v); return ok && s == g.compactKey }
+									k2 := p.holdsUp(cf, e.Site.Block(), eb2, func(base ssa.Value, fx []Fact) bool {
+										isE := func(v ssa.Value) bool { b, ok := loadedField(v, g.eKey); return ok && strip(b) == strip(base) }
+										return anyFact(fx, func(ft Fact) bool { return cmpFact(ft, token.EQL, isE, isCompact2) })
+									}, 0)
+									i2 := p.holdsUp(cf, e.Site.Block(), eb2, func(base ssa.Value, fx []Fact) bool {
+										return anyFact(fx, func(ft Fact) bool {
+											b, ok := loadedField(ft.V, g.eInternal)
+											return ok && ft.T && strip(b) == strip(base)
+										})
+									}, 0)
+									if !k2 || !i2 {
+										return "not under `e.Internal && e.Key == compactKey` of the received entry"
+									}
+								}
+								if sites > 0 {
+									return ""
+								}
+							}
 							return "the compaction version is not parsed from the received entry's value"
 						}
 						keyOK := p.holdsUp(f, blk, eb, func(base ssa.Value, fx []Fact) bool {
